@@ -2054,7 +2054,13 @@ func (db *DB) CommitJournal(ctx context.Context, mode JournalMode) (err error) {
 	var commit uint32
 	if _, err := dbFile.Seek(SQLITE_DATABASE_SIZE_OFFSET, io.SeekStart); err != nil {
 		return fmt.Errorf("cannot seek to database size: %w", err)
-	} else if err := binary.Read(dbFile, binary.BigEndian, &commit); err != nil {
+	} else if err := binary.Read(dbFile, binary.BigEndian, &commit); (err == io.EOF || err == io.ErrUnexpectedEOF) && prevPageN == 0 {
+		// The transaction that created the database was rolled back after it
+		// had written pages: SQLite has cut the file back to nothing. There is
+		// no database yet and nothing to publish.
+		db.pageSize = 0
+		return db.invalidateJournal(mode)
+	} else if err != nil {
 		return fmt.Errorf("cannot read database size: %w", err)
 	}
 
